@@ -605,7 +605,7 @@ impl Campaign for C08 {
     fn runs(&self, tier: Tier) -> u64 {
         match tier {
             Tier::Quick => 300_000,
-            Tier::Thorough => 20_000_000,
+            Tier::Thorough => 100_000_000,
         }
     }
     fn min_verdict_pct(&self) -> u64 {
